@@ -141,7 +141,9 @@ LIFT_LINES = ['add eax, ebx', 'adc eax, 5', 'sub ecx, edx', 'sbb al, bl', 'and e
               'imul eax, ebx', 'imul eax, ebx, 7', 'div ebx', 'div bx', 'idiv ebx', 'bsf eax, ebx', 'bsr eax, ebx', 'bt eax, 3',
               'movzx eax, bl', 'movsx eax, bx', 'cwde', 'lea eax, [ebx+ecx*4+8]', 'xchg eax, ebx', 'xadd eax, ebx', 'cmpxchg ebx, ecx',
               'setz al', 'setl bl', 'cmovz eax, ebx', 'cmovg ecx, edx', 'lahf', 'sahf', 'push eax', 'pop ebx', 'mov eax, [ebx+4]',
-              'mov [ebx], al', 'bswap eax', 'stc', 'cmc']
+              'mov [ebx], al', 'bswap eax', 'stc', 'cmc',
+              # a conditional of constants in a middle / upper slot of a composition
+              'setz ah', 'setl bh', 'seta ch', 'setz BYTE PTR [ebx]', 'cmovz ax, bx']
 
 
 def _lift_cases(args):
